@@ -52,7 +52,8 @@ ANCHORS = [
     'chi._log_pdfs.PopulationFilterLogPosterior.sample_initial_parameters',
 ]
 REQUIRED = {'reproducibility_pairs': 150, 'seed_sensitivity_pairs': 100,
-            'generator_checks': 30, 'stream_independence_tests': 40}
+            'generator_checks': 30, 'stream_independence_tests': 40,
+            'sweep_seeds_drawn': 20000}
 
 TIMES = np.array([0.5, 1.2, 2.0])
 
@@ -236,7 +237,12 @@ def reproducibility_case(ctx, rng, idx):
         ctx.violation_exc('entry_point_setup_raises', e, {})
         return
     feats = {'entry_point': name}
-    seed = int(rng.integers(0, 2 ** 31 - 2))
+    # boundary seeds are seeds too: 0 (falsy), 1, the largest legacy seed - 1
+    seed = [0, int(rng.integers(0, 2 ** 31 - 2)), 1,
+            int(rng.integers(0, 2 ** 31 - 2)), 2 ** 32 - 2,
+            int(rng.integers(0, 1000))][(idx // len(ENTRY)) % 6]
+    feats['seed_class'] = 'zero' if seed == 0 else (
+        'one' if seed == 1 else ('max' if seed == 2 ** 32 - 2 else 'random'))
     gstate = int(rng.integers(0, 10 ** 6))
     ctx.case((name, idx % 6), True, sample=dict(feats, seed=seed))
     try:
@@ -255,7 +261,8 @@ def reproducibility_case(ctx, rng, idx):
     ctx.count('reproducibility_pairs')
     # the same integer handed over as a numpy integer is the same seed
     try:
-        np_seed = [np.int64, np.int32, np.uint32][idx % 3](seed)
+        np_seed = ([np.int64, np.int32, np.uint32][idx % 3] if
+                   seed < 2 ** 31 else np.int64)(seed)
         r4 = call(np_seed)
         ctx.count('numpy_integer_seeds')
         if not _same(r1, r4):
@@ -303,6 +310,49 @@ def reproducibility_case(ctx, rng, idx):
         ctx.violation('generator_is_advanced', 'generator_restarted:' + name,
                       {'state_changed': s1 != s0,
                        'identical_draws': _same(ra, rb)}, feats)
+
+
+def seed_sweep_case(ctx, rng, idx):
+    """'different seeds give different draws' over whole ranges of integer
+    seeds: every seed of a block must give a result no other seed of the
+    block gives (a seed space collapsed onto fewer internal states shows as
+    exact duplicates)"""
+    k = idx % len(ENTRY)
+    ep = ENTRY[k]
+    try:
+        name, call, gen_documented, has_rand = ep(rng, idx // len(ENTRY))
+    except Exception as e:      # noqa
+        ctx.violation_exc('entry_point_setup_raises', e, {})
+        return
+    if not has_rand or (name.startswith('population:H')
+                        and '+' not in name):
+        # pooled: no randomness; heterogeneous: a discrete choice among the
+        # individuals' rows, for which equal draws are legitimate
+        ctx.reject('deterministic or discrete entry point')
+        return
+    cheap = ep in (ep_error_model, ep_population)
+    n = (4000 if cheap else 300) * (1 if ctx.tier == 'quick' else 3)
+    start = 0 if (idx // len(ENTRY)) % 2 == 0 else int(
+        rng.integers(0, 2 ** 31 - n))
+    feats = {'entry_point': name, 'n_seeds': n, 'start': start}
+    ctx.case(('sweep', name, start == 0), True, sample=feats)
+    seen = {}
+    for sd in range(start, start + n):
+        try:
+            v = _vals(call(sd))
+        except Exception as e:      # noqa
+            ctx.violation_exc('sampling_raises', e,
+                              {'entry_point': name, 'seed': sd}, feats)
+            return
+        key = v.tobytes()
+        ctx.count('sweep_seeds_drawn')
+        if key in seen:
+            ctx.violation('different_seed_different_result',
+                          'seed_collision:' + name.split(':')[0],
+                          {'seeds': [seen[key], sd], 'values': v[:6],
+                           'entry_point': name}, feats)
+            return
+        seen[key] = sd
 
 
 def independence_case(ctx, rng, idx):
@@ -436,4 +486,5 @@ FAMILIES = [
     Family('reproducibility', reproducibility_case, quick=8 * 36,
            thorough=8 * 400),
     Family('independence', independence_case, quick=84, thorough=840),
+    Family('seed_sweep', seed_sweep_case, quick=8 * 12, thorough=8 * 60),
 ]
